@@ -27,7 +27,18 @@ def plain(x):
     """shortest round-trip plain decimal of a finite float (what Rust's Display prints)"""
     if x == 0:
         return "-0" if bits(x) >> 63 else "0"
-    t = format(Decimal(repr(x)), "f")
+    d = Decimal(repr(x))
+    # Python's repr breaks an exact tie between two shortest candidates towards the even digit; Rust's Display (Grisu /
+    # Dragon shortest mode) takes the candidate of larger magnitude.  A tie: the exact binary value lies exactly half a
+    # unit of the last printed digit away from the printed decimal, and the other neighbour also reads back as x.
+    exact = Decimal(x)
+    ulp = Decimal(1).scaleb(d.as_tuple().exponent)
+    diff = exact - d
+    if abs(diff) * 2 == ulp:
+        other = d + ulp if diff > 0 else d - ulp
+        if float(other) == x and abs(other) > abs(d) and len(other.as_tuple().digits) == len(d.as_tuple().digits):
+            d = other
+    t = format(d, "f")
     if "." in t:
         t = t.rstrip("0").rstrip(".")
     return t
